@@ -31,11 +31,13 @@ CLAIMS = {
 }
 GOALS = {'quick': ['two declarations of one variable', 'variable given in the '
                    'initial state', 'dotdot wiring', 'glob child from state',
-                   'glob over children that hold processes'],
+                   'glob over children that hold processes',
+                   'undeclared key before declared ones'],
          'thorough': ['two declarations of one variable',
                       'variable given in the initial state', 'dotdot wiring',
                       'glob child from state',
-                      'glob over children that hold processes']}
+                      'glob over children that hold processes',
+                      'undeclared key before declared ones']}
 STUBS = ['stub processes whose schema, own initial_state() and wiring are '
          'produced by solver-decided choices']
 ASSUMPTIONS = ['which of two DIFFERENT declared defaults wins is not stated by '
@@ -141,6 +143,12 @@ def part_value(ctx, cfg):
             len(set(nodes)) < 2 * cfg['N']:
         ctx.goal('two declarations of one variable')
     init, given = {}, {}
+    if cfg['w0'] == 0 and ctx.flag('undeclared_first'):
+        # keys no process declares, listed before the declared ones at the
+        # root and at the level of the first declared variable
+        init['zz_undeclared'] = 5
+        put(init, nodes[0][:-1] + ('zz_undeclared',), 5)
+        ctx.goal('undeclared key before declared ones')
     for node in nodes:
         if ctx.flag('gi'):
             given[node] = ctx.int('iv', -9, 9)
